@@ -1,7 +1,7 @@
 #!/bin/bash
 # matrix.sh [budget]: re-runs every seeded change and every reverse patch against the property it breaks
 # (quick tier, private worktree per run) and prints one RESULT line each.
-cd /verif || exit 2
+cd "$(dirname "$(readlink -f "$0")")/.." || exit 2
 export BUDGET=${1:-60}
 for d in seeded/*/; do
   id=$(basename $d); [ -f $d/patch.diff ] || continue
